@@ -63,6 +63,24 @@ func printText(obj slip.Object, c Cfg) (text string, err *sl.Err) {
 			return "", &sl.Err{Class: "harness", Msg: "write-to-string did not return a string: " + show(res)}
 		}
 		return string(s), nil
+	case "global":
+		// the global printer variables are set with setq; the printer is restored afterwards
+		saved := *slip.DefaultPrinter()
+		defer func() { *slip.DefaultPrinter() = saved }()
+		scope := slip.NewScope()
+		scope.Let(slip.Symbol("c03-x"), obj)
+		src := fmt.Sprintf("(progn (setq *print-readably* %s *print-escape* t *print-array* t *print-base* %d *print-radix* %s "+
+			"*print-case* :%s *print-pretty* %s *print-right-margin* %d) (write-to-string c03-x))",
+			lispBool(c.Mode == "readably"), c.Base, lispBool(c.Radix), c.Case, lispBool(c.Pretty), c.Margin)
+		res, e := sl.Eval(scope, src)
+		if e != nil {
+			return "", e
+		}
+		s, ok := res.(slip.String)
+		if !ok {
+			return "", &sl.Err{Class: "harness", Msg: "write-to-string did not return a string: " + show(res)}
+		}
+		return string(s), nil
 	case "vars":
 		scope := slip.NewScope()
 		scope.Let(slip.Symbol("c03-x"), obj)
